@@ -101,6 +101,9 @@ def run(ctx):
     mrs = [bb for bb, t in sr.calls() if sm.MAKE_RESPONSE in P.call_targets(t)]
     for mb in mrs:
         a = [W.expand(x) for x in sev.call_args(mb)]
+        mrf = P.fns.get(sm.MAKE_RESPONSE)
+        if mrf is not None and mrf.nargs >= 1 and "Responder" not in mrf.locals[1]["ty"]:
+            a = [None] + a          # an associated function without `self`: every argument counts
         srep_args = [x for x in a[1:] if values.contains(x, lambda y: is_call(y) and sm.MAKE_SREP.endswith(strip_generics(y[1]).split("::")[-1]) and "make_srep" in y[1]) or
                      values.contains(x, lambda y: isinstance(y, tuple) and y and y[0] == "field" and "srep" in str(y[2]).lower())]
         # the SREP message itself, or fields taken from it (`srep.get_field(SIG)` looked up once per batch and passed down)
@@ -113,6 +116,10 @@ def run(ctx):
                 return True
             if x[0] == "phi":
                 return all(only_from(y, depth + 1) for y in x[1])
+            if x[0] == "agg":
+                # a small struct / tuple carrying the per-batch values: every component that concerns the SREP must stem from this batch's
+                concerns = lambda y: values.contains(y, lambda z: z == ct0 or (isinstance(z, tuple) and z and z[0] == "field" and "srep" in str(z[2]).lower()))
+                return any(concerns(y) for y in x[2]) and all(only_from(y, depth + 1) for y in x[2] if concerns(y))
             if x[0] in ("vfield", "field", "variant", "index", "reader", "cast"):
                 return only_from(x[1], depth + 1)
             if x[0] == "call" and x[2]:
